@@ -153,9 +153,9 @@ PROPS["C08"] = dict(
     theorems=["WgslVerif.C08", "WgslVerif.C08_mem", "WgslVerif.C08_nodup", "WgslVerif.structWanted_iff",
               "WgslVerif.globalVariableTypes_mem", "WgslVerif.typeArenaOkB_sound"],
     streams=lambda tier, seed: (
-        [("fixtures",), ("gen", "structs", seed, 500), ("gen", "general", seed, 300), ("gen", "vertex", seed, 150), ("gen", "entries", seed, 100)] if tier == "quick" else
-        [("fixtures",), ("gen", "structs", seed, 12000), ("gen", "general", seed, 6000), ("gen", "vertex", seed, 3000), ("gen", "entries", seed, 2000), ("gen", "scale", seed, 300)]),
-    opts=q_opts([4, 37], [4, 37, 70]),
+        [("fixtures",), ("types",), ("gen", "structs", seed, 500), ("gen", "general", seed, 300), ("gen", "vertex", seed, 150), ("gen", "entries", seed, 100)] if tier == "quick" else
+        [("fixtures",), ("types",), ("gen", "structs", seed, 12000), ("gen", "general", seed, 6000), ("gen", "vertex", seed, 3000), ("gen", "entries", seed, 2000), ("gen", "scale", seed, 300)]),
+    opts=q_opts([4, 37, 6], [4, 37, 70, 6, 3]),
     rule="cases: fixtures + generator profiles structs/general/vertex/entries (structs only in uniform/storage/private/workgroup variables, through arrays, nested arrays, "
          "nested structs, only as vertex input, vertex input and storage, fragment input, entry result, function-local, unused); non-trivial = the module has at least one struct type; "
          "distinct = distinct WGSL text",
@@ -167,8 +167,8 @@ PROPS["C09"] = dict(
     lean_modules=["WgslVerif.Props.C09"],
     theorems=["WgslVerif.C09", "WgslVerif.C09_rustStruct", "WgslVerif.C09_noninterference", "WgslVerif.C09_panics", "WgslVerif.deriveListB_table"],
     streams=lambda tier, seed: (
-        [("fixtures",), ("gen", "structs", seed, 60), ("gen", "vertex", seed, 30), ("gen", "general", seed, 30)] if tier == "quick" else
-        [("fixtures",), ("gen", "structs", seed, 1500), ("gen", "vertex", seed, 500), ("gen", "general", seed, 500)]),
+        [("fixtures",), ("types", 10, seed), ("gen", "structs", seed, 60), ("gen", "vertex", seed, 30), ("gen", "general", seed, 30)] if tier == "quick" else
+        [("fixtures",), ("types",), ("gen", "structs", seed, 1500), ("gen", "vertex", seed, 500), ("gen", "general", seed, 500)]),
     # all 2^4 derive switches x 3 representations x validation off/on
     opts=q_opts(ALL_OPTS[:48], ALL_OPTS),
     rule="cases: fixtures + generator profiles structs/vertex/general, each under ALL 2^4 derive-switch combinations x 3 representations (x validation on/off in the thorough tier); "
@@ -421,8 +421,8 @@ PROPS["C05"] = dict(
     lean_modules=["WgslVerif.Props.C05"],
     theorems=["WgslVerif.C05", "WgslVerif.C05_complete", "WgslVerif.C05_sound", "WgslVerif.find_struct_by_name", "WgslVerif.offsetAsserts_eq"],
     streams=lambda tier, seed: (
-        [("fixtures",), ("gen", "structs", seed, 400), ("gen", "general", seed, 200), ("gen", "vertex", seed, 100)] if tier == "quick" else
-        [("fixtures",), ("gen", "structs", seed, 10000), ("gen", "general", seed, 5000), ("gen", "vertex", seed, 2000), ("gen", "scale", seed, 300)]),
+        [("fixtures",), ("types",), ("gen", "structs", seed, 400), ("gen", "general", seed, 200), ("gen", "vertex", seed, 100)] if tier == "quick" else
+        [("fixtures",), ("types",), ("gen", "structs", seed, 10000), ("gen", "general", seed, 5000), ("gen", "vertex", seed, 2000), ("gen", "scale", seed, 300)]),
     opts=q_opts([2, 6, 18, 34, 1], [2, 6, 18, 34, 1, 50, 15, 47]),
     rule="cases: fixtures + generator profiles structs/general/vertex (scalars, vec2/3/4, all matrix shapes, fixed arrays incl. of vec3/matrices/structs, nested structs, atomics, "
          "vec3-then-scalar packing, @align/@size) x 3 representations with bytemuck host-shareable on (and off); non-trivial = at least one struct emitted; distinct = distinct WGSL text",
@@ -435,8 +435,8 @@ PROPS["C06"] = dict(
     lean_modules=["WgslVerif.Props.C06", "WgslVerif.Props.C06Repr"],
     theorems=["WgslVerif.C06", "WgslVerif.C06_denote", "WgslVerif.C06_repr", "WgslVerif.C06_fields", "WgslVerif.C06'"],
     streams=lambda tier, seed: (
-        [("fixtures",), ("gen", "structs", seed, 400), ("gen", "general", seed, 200), ("gen", "vertex", seed, 100)] if tier == "quick" else
-        [("fixtures",), ("gen", "structs", seed, 10000), ("gen", "general", seed, 5000), ("gen", "vertex", seed, 2000), ("gen", "scale", seed, 300)]),
+        [("fixtures",), ("types",), ("gen", "structs", seed, 400), ("gen", "general", seed, 200), ("gen", "vertex", seed, 100)] if tier == "quick" else
+        [("fixtures",), ("types",), ("gen", "structs", seed, 10000), ("gen", "general", seed, 5000), ("gen", "vertex", seed, 2000), ("gen", "scale", seed, 300)]),
     opts=q_opts([4, 20, 36], [4, 20, 36, 52, 68, 84]),
     rule="cases: fixtures + generator profiles structs/general/vertex under the three representations (encase on so that runtime arrays are emitted); all member types and nestings "
          "(arrays of arrays, arrays of structs, structs in structs, atomics, trailing runtime arrays, interleaved builtins); non-trivial = at least one struct emitted; distinct = distinct WGSL text",
@@ -724,8 +724,8 @@ PROPS["C07"] = dict(
               "WgslVerif.getVertexInputStructs_mem", "WgslVerif.locatedMembers_spec",
               "WgslVerif.vertexInputOf_name", "WgslVerif.dedupByName_sub", "WgslVerif.vertexEntryStructs_length"],
     streams=lambda tier, seed: (
-        [("fixtures",), ("gen", "vertex", seed, 500), ("gen", "general", seed, 200), ("gen", "entries", seed, 100)] if tier == "quick" else
-        [("fixtures",), ("gen", "vertex", seed, 12000), ("gen", "general", seed, 5000), ("gen", "entries", seed, 2000)]),
+        [("fixtures",), ("types", 2, seed), ("gen", "vertex", seed, 500), ("gen", "general", seed, 200), ("gen", "entries", seed, 100)] if tier == "quick" else
+        [("fixtures",), ("types",), ("gen", "vertex", seed, 12000), ("gen", "general", seed, 5000), ("gen", "entries", seed, 2000)]),
     opts=q_opts([0, 17, 37], [0, 17, 37, 53, 22]),
     extra=extra_c07,
     rule="cases: fixtures + generator profiles vertex/general/entries (input structs with f32/i32/u32 scalars and vec2-4, arbitrary non-dense and unordered location numbers, builtins "
@@ -748,7 +748,7 @@ def round_up(k, n):
 def extra_c10(pid, tier, seed, workdir, known, write_replay):
     """real encase 0.10 bytes (harness `batch encase`) vs naga's WGSL offsets vs the Lean transcription Ext.Encase"""
     n = 60 if tier == "quick" else 1200
-    cases = write_stream_file([("gen", "structs", seed, n), ("gen", "general", seed, n // 3)], os.path.join(workdir, "c10.cases"))
+    cases = write_stream_file([("fixtures",), ("types", 8 if tier == "quick" else 1, seed), ("gen", "structs", seed, n), ("gen", "general", seed, n // 3)], os.path.join(workdir, "c10.cases"))
     case_by_id = {}
     for l in open(cases):
         m = re.match(r'\(src "([^"]*)"', l)
@@ -830,7 +830,7 @@ PROPS["C10"] = dict(
     lean_modules=["WgslVerif.Props.C10"],
     theorems=["WgslVerif.C10_leaf", "WgslVerif.C10_struct_algorithm", "WgslVerif.C10_offsets_partial"],
     driver_props=["C10"],
-    streams=lambda tier, seed: [("gen", "structs", seed, 100 if tier == "quick" else 3000), ("fixtures",)],
+    streams=lambda tier, seed: [("gen", "structs", seed, 100 if tier == "quick" else 3000), ("fixtures",), ("types",)],
     opts=q_opts([20], [20, 22, 68]),
     extra=extra_c10,
     rule="cases: generator profiles structs/general under encase + glam; every emitted ShaderType struct is constructed with sentinel values, written through the REAL "
@@ -857,7 +857,7 @@ C01_SECONDARY = [r"the trait `Copy` cannot be implemented", r"cannot find type",
 def extra_c01(pid, tier, seed, workdir, known, write_replay):
     """rustc (cargo check) on the real generated modules against the real wgpu 24 / bytemuck / encase / glam / serde (harness `batch check`)"""
     n = 1 if tier == "quick" else 10
-    cases = write_stream_file([("fixtures",), ("gen", "structs", seed, 20 * n), ("gen", "general", seed, 25 * n), ("gen", "vertex", seed, 12 * n),
+    cases = write_stream_file([("fixtures",), ("types", 9 if tier == "quick" else 1, seed), ("gen", "structs", seed, 20 * n), ("gen", "general", seed, 25 * n), ("gen", "vertex", seed, 12 * n),
                                ("gen", "consts", seed, 12 * n), ("gen", "entries", seed, 12 * n), ("gen", "textures", seed, 8 * n), ("gen", "unicode", seed, 8 * n)],
                               os.path.join(workdir, "c01.cases"))
     case_by_id = {}
